@@ -53,9 +53,10 @@ def allowed(point, alt):
 
 
 def scenarios(tier):
-    fl = S.flavours("quick" if tier == "quick" else "thorough")
+    fl = S.flavours("thorough")
     if tier == "quick":
-        keep = ("SSLv3-RSA", "TLS1.0-DHE_RSA", "TLS1.1-ECDHE_RSA",
+        keep = ("SSLv3-RSA", "SSLv3-RSA-clientauth", "TLS1.0-DHE_RSA",
+                "TLS1.1-ECDHE_RSA",
                 "TLS1.2-RSA-clientauth", "TLS1.2-ECDHE_RSA-GCM",
                 "TLS1.2-SRP", "TLS1.2-ECDHE_RSA-tickets", "TLS1.3-RSA",
                 "TLS1.3-RSA-clientauth", "TLS1.3-HRR", "TLS1.3-tickets",
@@ -515,6 +516,9 @@ def hs_alert_case(item):
                 fails.append("alert surfaced as %r" % (out,))
         if not o["closed"]:
             fails.append("not closed")
+        if not o.get("sock_closed", True):
+            # (closeSocket is True here: the transport goes with it)
+            fails.append("socket left open after the alert")
         if o["resumable"]:
             fails.append("resumable after alert during handshake")
     if out and out[0] in ("stall", "budget"):
